@@ -19,10 +19,14 @@ def _component(e):
     t = src(e)
     if t == "args":
         return None
-    if "pagetag.filter_args.args" in t:
+    if t == "self.compiler.pagetag.filter_args.args":
         return "P"
-    if "default_filters" in t:
+    if t == "self.compiler.default_filters":
         return "D"
+    if "pagetag.filter_args.args" in t:
+        return "P~"  # a derived (filtered / reordered) form of the page filters
+    if "default_filters" in t:
+        return "D~"
     return "?" + t
 
 
@@ -112,6 +116,10 @@ def compose(ctx):
             if ok:
                 ok, why = final == "+".join(want), "expected %s" % "+".join(want)
         ctx.check(ok, key, where, "final filter list is %s: %s" % (final, why), "final list %s" % final)
+    for st, cs in paths:
+        for comp in st:
+            if comp.endswith("~"):
+                ctx.violation("component:" + comp, where, "the %s filters are not prepended as configured but in a derived form (some are dropped, reordered or de-duplicated): the pipeline is no longer f2(f1(P(D(value))))" % ("default" if comp.startswith("D") else "page"))
     finals = {"+".join(st) for st, cs in paths}
     ctx.check({"L", "P+L", "D+P+L", "D+L"} <= finals, "all-forms", where, "reachable filter lists %s lack one of L, P+L, D+L, D+P+L" % sorted(finals), sorted(finals))
 
